@@ -159,6 +159,9 @@ pub(crate) fn read_tags_array(
     // NOTE: we cannot write any tag strings until after we have counted the tags.
     // (our tags structure is optimized for reading, not writing)
     let num_tags: usize = count_tags(input, *inposp)?;
+    if num_tags > u16::MAX as usize {
+        return Err(InnerError::OutOfRange(num_tags).into());
+    }
     put(output, 2, (num_tags as u16).to_ne_bytes().as_slice())?;
 
     // Case where we have no tags
@@ -178,7 +181,10 @@ pub(crate) fn read_tags_array(
     }
 
     loop {
-        // Write the offset of this tag
+        // Write the offset of this tag (offsets and lengths are stored as u16)
+        if outpos > u16::MAX as usize {
+            return Err(InnerError::OutOfRange(outpos).into());
+        }
         let offset_slot = 4 + tag_num * 2;
         put(
             output,
@@ -214,6 +220,9 @@ pub(crate) fn read_tags_array(
     }
 
     // Write length of tags section
+    if outpos > u16::MAX as usize {
+        return Err(InnerError::OutOfRange(outpos).into());
+    }
     put(output, 0, (outpos as u16).to_ne_bytes().as_slice())?;
 
     Ok(outpos)
@@ -333,6 +342,9 @@ pub(crate) fn read_content(
 
     // Write event size
     let event_len = after_tags + 4 + outlen;
+    if event_len > u32::MAX as usize {
+        return Err(InnerError::OutOfRange(event_len).into());
+    }
     put(output, 0, (event_len as u32).to_ne_bytes().as_slice())?;
 
     Ok(())
